@@ -337,7 +337,7 @@ class Gen:
         sim = self.sim
         sess = rng.choice(list(sim.sessions.values()))
         specs = sim._specs(sess)
-        if not specs:
+        if not specs or sess.kind == 'mem':
             return None
         ids = [s['fid'] for s in specs if s.get('fid') is not None]
         if ids and rng.random() < 0.75:
